@@ -16,6 +16,8 @@ func dispatch(t *testing.T, sc scenario) result {
 		return runJoin(t, sc)
 	case 6:
 		return runLimit(t, sc)
+	case 7:
+		return runPrio2(t, sc)
 	default:
 		return result{verdict: "unknown-family"}
 	}
